@@ -176,6 +176,19 @@ func (t treeSpec) build(s *store.Store, seed *int) (*builtTree, error) {
 			return nil, err
 		}
 		return &builtTree{Kind: t.Kind, Cid: c, Size: sz, Content: content}, nil
+	case "fL":
+		// a hand-written file whose root under-declares the middle child's size
+		// (link Tsize 1): the file's bytes are still the concatenation of its leaves
+		spec, ok := gen.HandByLabel("hand-liar 3 leaves=raw tsize-under-mid")
+		if !ok {
+			return nil, fmt.Errorf("hand-written DAG family changed")
+		}
+		c, content := spec.Build(s)
+		sz, err := model.TreeSum(s, c)
+		if err != nil {
+			return nil, err
+		}
+		return &builtTree{Kind: "fL", Cid: c, Size: sz, Content: content}, nil
 	case "sym":
 		target := fmt.Sprintf("../target-%d", id)
 		l, sz, err := builder.BuildUnixFSSymlink(target, s.LinkSystem())
@@ -331,6 +344,9 @@ func pathTrees(quick bool) []treeSpec {
 	ts = append(ts, m(f1, f1, f1), m(f1, fN, sym, f1), m(f1, f1, f1, f1, f1, f1),
 		treeSpec{Kind: "dir", Children: []treeSpec{m(f1, f1, fN), f1}},
 		m(treeSpec{Kind: "dir", Children: []treeSpec{f1}}, f1, m(f1, f1, f1)),
-		treeSpec{Kind: "hamt", Children: []treeSpec{m(f1, f1, f1), f1, f1}})
+		treeSpec{Kind: "hamt", Children: []treeSpec{m(f1, f1, f1), f1, f1}},
+		treeSpec{Kind: "fL"},
+		treeSpec{Kind: "dir", Children: []treeSpec{{Kind: "fL"}, f1}},
+		treeSpec{Kind: "hamt", Children: []treeSpec{f1, {Kind: "fL"}, fN}})
 	return ts
 }
